@@ -118,7 +118,7 @@ def patterns_distinct(chk, repo, rule):
                    what='%s: no two %s entries are the same pattern (up to '
                         'fragment and label names)'
                         % (lib.name, sec), found='; '.join(dup[:4]))
-    chk.need(rule, n, 600, 'scheme pattern entries')
+    chk.need(rule, n, 400, 'scheme pattern entries')
 
 
 def periph_convention(chk, repo, rule):
@@ -136,7 +136,7 @@ def periph_convention(chk, repo, rule):
                what='%s: an atom named as a centre carries the same name '
                     'as a neighbour (convention of all shipped schemes)'
                % lib.name, found='; '.join(bad[:4]))
-    chk.need(rule, n, 250, 'centre patterns')
+    chk.need(rule, n, 150, 'centre patterns')
 
 
 def quantity_dimensions(chk, repo, rule):
@@ -173,7 +173,7 @@ def quantity_dimensions(chk, repo, rule):
                             'default) has the dimension of its kind, so it '
                             'loads to a plain number' % rel,
                        found='; '.join(bad[:5]))
-    chk.need(rule, nrec, 800, 'correlation records')
+    chk.need(rule, nrec, 500, 'correlation records')
 
 
 def _span(tc, db, tdef):
@@ -311,4 +311,4 @@ def names_disjoint(chk, repo, rule):
                qualname='other_descriptors',
                what='%s: descriptor names compared with centre and group '
                     'names' % lib.name)
-    chk.need(rule, n, 300, 'correction descriptors')
+    chk.need(rule, n, 150, 'correction descriptors')
